@@ -173,10 +173,27 @@ class Gen:
         self.consts[key] = (ty, val)
         return ty, val
 
+    def enum_discriminants(self, file, name):
+        src = read_repo(file)
+        try:
+            it = rs.find_item(src, r'(^|\s)enum ' + re.escape(name) + r'$', file)
+        except LookupError as e:
+            raise Undecided(str(e))
+        out = {}
+        for m in re.finditer(r'([A-Z][A-Za-z0-9_]*)\s*=\s*(0x[0-9A-Fa-f]+|\d+)', it.body):
+            out[m.group(1)] = int(m.group(2), 0)
+        return out
+
     def constcheck(self, rest, origin):
         pos, kv = parse_kv(rest)
         name = pos[0]
-        ty, val = self.eval_const(kv['file'], name)
+        if 'enum' in kv:
+            vals = self.enum_discriminants(kv['file'], kv['enum'])
+            if name not in vals:
+                raise Undecided(f'{kv["file"]}: enum {kv["enum"]} has no explicit discriminant for {name}')
+            ty, val = 'u8', vals[name]
+        else:
+            ty, val = self.eval_const(kv['file'], name)
         expect = kv['expect']
         lab = kv.get('label', 'fmt.consts.' + name)
         props = kv.get('props', 'C06')
@@ -198,7 +215,11 @@ class Gen:
         pos, kv = parse_kv(rest)
         name = pos[0]
         ty, val = self.eval_const(kv['file'], name)
-        self.emit(f'pub const {kv.get("as", name)}: {kv.get("ty", ty)} = {rules.lit(val)};', origin)
+        if isinstance(val, bytes):
+            cty = kv.get('ty', ty).replace('&[', "&'static [")
+            self.emit('pub const %s: %s = &[%s];' % (kv.get('as', name), cty, ', '.join('%du8' % b for b in val)), origin)
+        else:
+            self.emit(f'pub const {kv.get("as", name)}: {kv.get("ty", ty)} = {rules.lit(val)};', origin)
 
     def struct_check(self, rest):
         pos, kv = parse_kv(rest)
